@@ -1793,7 +1793,16 @@ impl FunctionDef {
                 for (idx, expected_arg) in expected_args.iter().enumerate() {
                     match expected_arg {
                         LambdaArg::Required(arg_name) => {
-                            local_bindings.insert(arg_name.clone(), args[idx]);
+                            // A required parameter can follow an optional one, so the
+                            // arity check does not guarantee that this index exists
+                            let value = args.get(idx).copied().ok_or_else(|| {
+                                RuntimeError::new(format!(
+                                    "{} is missing its required argument \"{}\"",
+                                    self.get_name(),
+                                    arg_name
+                                ))
+                            })?;
+                            local_bindings.insert(arg_name.clone(), value);
                         }
                         LambdaArg::Optional(arg_name) => {
                             local_bindings.insert(
